@@ -266,6 +266,24 @@ def programs(tier):
     ], Unit))
     out.append({"prog": p, "family": "c17", "ident": "c17:same-trait-name-in-two-packages",
                 "extra_files": {"LibA/lib.gom": "package LibA\n\ntrait Show { fn show(Self) -> int32; }\n", "LibB/lib.gom": "package LibB\n\ntrait Show { fn show(Self) -> int32; }\n"}})
+    # the same two traits and a value coerced to `dyn` of ONE of them: the other trait's method on it needs an implementation of the
+    # other trait for `dyn ..` (none: rejected; present: that implementation runs, not the vtable of the value's own trait) -
+    # with both traits imported, and with one of them local to Main
+    libs = {"LibA/lib.gom": "package LibA\n\ntrait Show { fn show(Self) -> int32; }\n", "LibB/lib.gom": "package LibB\n\ntrait Show { fn show(Self) -> int32; }\n"}
+    for where, other, hdr, odecl in (("both-imported", "LibB::Show", "package Main\nimport LibA\nimport LibB\n", ""),
+                                     ("one-local", "Show", "package Main\nimport LibA\n", "trait Show { fn show(Self) -> int32; }\n")):
+        base = (hdr + "struct P { a: int32 }\n" + odecl + "impl LibA::Show for P { fn show(self: P) -> int32 { self.a + 100 } }\n"
+                + f"impl {other} for P {{ fn show(self: P) -> int32 {{ self.a + 200 }} }}\n")
+        main = (f"fn main() -> unit {{\n    let v: P = P {{ a: 5 }};\n    let d: dyn LibA::Show = v;\n    let _ = string_println(int32_to_string(LibA::Show::show(d)));\n"
+                f"    let _ = string_println(int32_to_string({other}::show(d)));\n    ()\n}}\n")
+        xf = {k: v for k, v in libs.items() if where == "both-imported" or k.startswith("LibA")}
+        out.append({"prog": TextProgram(f"c17_same_name_cross_dyn_noimpl_{where}".replace("-", "_"), base + main, []), "family": "c17",
+                    "ident": f"c17:same-trait-name-cross-dyn-without-impl:{where}", "expect": "reject", "extra_files": xf})
+        if where == "both-imported":
+            continue          # `impl LibB::Show for dyn LibA::Show` in Main is an orphan (neither side local): rightly rejected
+        withimpl = base + f"impl {other} for dyn LibA::Show {{ fn show(self: dyn LibA::Show) -> int32 {{ 9000 + LibA::Show::show(self) }} }}\n"
+        out.append({"prog": TextProgram(f"c17_same_name_cross_dyn_impl_{where}".replace("-", "_"), withimpl + main, ["105", "9105"]), "family": "c17",
+                    "ident": f"c17:same-trait-name-cross-dyn-with-impl:{where}", "expect": "accept", "extra_files": xf})
     # ---- rejections: ambiguous method name under two bounds; dyn coercion without an implementation
     p = Program("c17_ambiguous")
     decls(p)
